@@ -56,6 +56,9 @@ pub struct Case {
     pub j6: f64,
     pub limits: LimitGen,
     pub layers: Vec<Layer>,
+    /// 1: the constraint object was built with other limits (sharing one bound per joint with the final ones) and moved there by update_range
+    #[serde(default)]
+    pub history: u8,
 }
 
 fn same_limits(a: &rs_opw_kinematics::constraints::Constraints, b: &rs_opw_kinematics::constraints::Constraints) -> bool {
@@ -106,8 +109,9 @@ impl Property for C08 {
             -3.0..3.0f64,
             prop_oneof![3 => limits_any().prop_map(LimitGen::Any), 4 => around],
             prop_oneof![3 => Just(vec![]), 4 => prop::collection::vec(any_layer(1.0), 1..4)],
+            0u8..3,
         )
-            .prop_map(|(robot, pose, prev, entry, j6, limits, layers)| Case { robot, pose, prev, entry, j6, limits, layers })
+            .prop_map(|(robot, pose, prev, entry, j6, limits, layers, history)| Case { robot, pose, prev, entry, j6, limits, layers, history })
             .boxed()
     }
     fn check(&self, c: &Case, ctx: &mut Ctx) -> Res {
@@ -127,7 +131,17 @@ impl Property for C08 {
             LimitGen::Around { shift: None, .. } => "limits:window-around-source",
             LimitGen::Around { shift: Some(_), .. } => "limits:window-excluding-source",
         });
-        let cons = lim.build();
+        let cons = if c.history % 3 == 1 {
+            // even joints keep their lower limit, odd joints their upper limit; the other bound moves
+            let f0: [f64; 6] = std::array::from_fn(|k| if k % 2 == 0 { lim.from[k] } else { lim.from[k] - 0.37 });
+            let t0: [f64; 6] = std::array::from_fn(|k| if k % 2 == 1 { lim.to[k] } else { lim.to[k] + 0.41 });
+            let mut x = rs_opw_kinematics::constraints::Constraints::new(f0, t0, lim.weight);
+            x.update_range(lim.from, lim.to);
+            ctx.class("limits reached through update_range (one bound per joint unchanged)");
+            x
+        } else {
+            lim.build()
+        };
         let with = build_stack(Arc::new(opw_c(r, cons)), &c.layers);
         let without = build_stack(Arc::new(opw(r)), &c.layers);
 
